@@ -107,7 +107,7 @@ class RefFlorySchulz(Ref):
 
 
 class RefSchulzZimm(Ref):
-    """documented density z^(z+1)/Gamma(z+1) M^(z-1)/Mn^z exp(-z M/Mn), z = Mn/(Mw-Mn), used at the integers 1, 2, ... as a mass function
+    """documented density z^(z+1)/Gamma(z+1) M^(z-1)/Mn^z exp(-z M/Mn), z = Mn/(Mw-Mn), at the integers 1, 2, ..., normalised to a mass function
     (mass 0 is outside the support: the density is positive there for z = 1 and diverges for z < 1)"""
     discrete = True
 
@@ -122,6 +122,9 @@ class RefSchulzZimm(Ref):
         M = np.arange(1, top + 1, dtype=float)
         logp = (z + 1) * math.log(z) - special.gammaln(z + 1) + (z - 1) * np.log(M) - z * math.log(Mn) - z * M / Mn
         self.pm = np.concatenate([[0.0], np.exp(logp)])
+        # normalised over the positive integers (as the library does since its fix)
+        self.raw_total = float(np.sum(self.pm))
+        self.pm = self.pm / self.raw_total
         self.cum = np.cumsum(self.pm)
         self.total = float(self.cum[-1])
 
